@@ -11,7 +11,6 @@ var exemptionsC04 = map[string]string{
 	`lisp.EVAL | panic Errorf("debugger command not handled %d",&local[:])`:                                         "reached only when a host Stepper callback returns a value outside debuggertypes.Command's declared constants; C18.enum checks the switch covers every declared constant",
 	`lisp.EVAL | index eval_ast(local,macroexpand(local,φ,local)#0,local)#0.(types.List).Val[0]`:                    evalAstShape,
 	`lisp.EVAL | slice eval_ast(local,macroexpand(local,φ,local)#0,local)#0.(types.List).Val[1:]`:                   evalAstShape,
-	`lisp.READWithPreamble | slice FindAllStringSubmatch(placeholderRE,Trim(Cut(φ,"\n")#0," \t\r\n"),-1)[0][1][3:]`: "group 1 of placeholderRE is `;; $` followed by at least one name character, so it is at least 5 bytes long; C15.format checks that the pattern starts with the preamble prefix",
 	`lisp.do | slice p1.(types.List).Val[p2:len(p1.(types.List).Val)+p3]`:                                           "every call site passes (from,to) in {(2,-1),(1,-1),(0,0),(0,-1)} with a list that has at least `from` elements (head symbol and binding vector were read by the caller) and the function returned already when len(lst) == from; the call-site constants are checked by C01.body",
 	`lisp.do | index eval_ast(p0,local,p4)#0.(types.List).Val[len(eval_ast(p0,local,p4)#0.(types.List).Val)-1]`:     evalAstShape + "; the slice evaluated is non-empty because len(lst) != from was tested",
 	`lisp.do | index p1.(types.List).Val[len(p1.(types.List).Val)-1]`:                                               "len(lst) > from >= 0 at this point (see the slice above)",
@@ -28,7 +27,6 @@ var exemptionsC05 = map[string]string{
 	`reader.read_atom | slice next(p0).Value[1:len(next(p0).Value)]`:                                                scannerTokens,
 	`reader.Read_str | index FindStringSubmatch(moduleNamePrefixRE,p0)[1]`:                                          "regexp.FindStringSubmatch returns nil or 1+NumSubexp elements and moduleNamePrefixRE has one group; the nil case is tested",
 	`reader.Read_str | index local.tokens[local.position-1]`:                                                        "read_form returned without error, so it consumed at least one token (C05.progress: consume summary of read_form) and next() never moves the cursor past len(tokens)",
-	`lisp.READWithPreamble | slice FindAllStringSubmatch(placeholderRE,Trim(Cut(φ,"\n")#0," \t\r\n"),-1)[0][1][3:]`: "group 1 of placeholderRE is `;; $` followed by at least one name character, so it is at least 5 bytes long; C15.format checks that the pattern starts with the preamble prefix",
 	`printer.Pr_str | assert p0.(marshaler.HashMap).MarshalHashMap()#0.(types.HashMap)`:                             "contract of marshaler.HashMap implementations (host types); the only in-module implementation, LispError.MarshalHashMap, returns a types.HashMap",
 }
 
